@@ -31,6 +31,13 @@ CHECKS = {
             'truth-value, error-path, rendering and override-restoration invariants.',
             'Formatter methods are trusted (dispatch and operand are checked); override fields limited to seven attributes; '
             'class pool = core commands, one tool class, three run-time generated instructor subclasses.', '3/C20'),
+    'C16': ('Complete enumeration of operation x value x value x placement against the same operation on the unwrapped '
+            'values (differential with CPython), plus Hypothesis-generated nested operands',
+            'The operator/value/placement table (about 160k evaluations, every listed operation family, ~48 values incl. '
+            'user objects) is enumerated completely on every run; random nested values add depth. Failures are bucketed by '
+            '(operation, operand type, placement, symptom).',
+            'Proxies are real SandboxResult objects produced by Sandbox.evaluate(); bare proxy needles in real containers '
+            'and real_str % proxy are outside the domain (decided in C code of the real operand).', '3/C16'),
 }
 
 NOT_YET = {}
